@@ -14,7 +14,7 @@ record('LimitRec', {'trait': 'Name', 'cpu': 'Str', 'disk': 'Str', 'memory': 'Str
 record('PartRec', {'cpu': 'Str', 'disk': 'Str', 'memory': 'Str', 'limits': 'List[LimitRec]'})
 record('FreeRec', {'cpu': 'Int', 'disk': 'Int', 'memory': 'Int'})
 record('RsrcRec', {'cpu': 'Str', 'disk': 'Str', 'memory': 'Str', 'partition': 'Name',
-                   'traits': 'List[Name]', 'has_traits': 'Bool'})
+                   'traits': 'List[Name]', 'has_traits': 'Bool', 'rank': 'Int', 'has_rank': 'Bool'})
 
 # value of a schema-valid resource string (defined by the parsers' own contracts, units.py)
 ufunc('cpu_val', ['Str'], 'Int')
@@ -250,4 +250,25 @@ contract(M + ':API._ReservationAPI.update',
 site(M + ':API._ReservationAPI.update', 'AdminCellAlloc.update', ordinal=1, asserts=[
     # the directory write is reached only for a reservation that passed the acceptance check
     'fits_all(rsrc, old_id_of(allocation, cell))',
+])
+
+
+# reservation create: the same clause at AdminCellAlloc.create.  The plugin loop may return another request object; the
+# clause speaks about the request that was checked (the parameter as it was when the handler was entered).
+cls('ApiPlugin', None, {})
+cls('ResvAPI', None, {'_plugins': 'List[ApiPlugin]'})
+contract('lib:ApiPlugin.add_attributes', types={'$params': ['self', 'rsrc_id', 'rsrc'], 'return': 'RsrcRec'},
+         modifies=['alloc'], assumed=True, note='API plugin: returns the request with attributes added (a new or the same object)')
+contract(M + ':API._ReservationAPI.create',
+         types={'rsrc_id': 'Str', 'rsrc': 'RsrcRec', 'allocation': 'Name', 'cell': 'Name', 'return': 'RsrcRec',
+                '^self': 'ResvAPI', 'plugin': 'ApiPlugin'},
+         requires=['valid_cpu(rsrc["cpu"])', 'valid_size(rsrc["disk"])', 'valid_size(rsrc["memory"])'],
+         raises={'InvalidInputError': [], 'ValueError': []},
+         modifies=['alloc', ('RsrcRec.partition', 'lambda r: True'), ('RsrcRec.rank', 'lambda r: True'),
+                   ('RsrcRec.has_rank', 'lambda r: True')],
+         props=['C19'])
+invariant(M + ':API._ReservationAPI.create', 0, 'for plugin in self._plugins',
+          ['fits_all(old(rsrc), old_id_of(allocation, cell))'])
+site(M + ':API._ReservationAPI.create', 'AdminCellAlloc.create', ordinal=0, asserts=[
+    'fits_all(old(rsrc), old_id_of(allocation, cell))',
 ])
